@@ -230,6 +230,36 @@ fn div_calls() -> usize {
 /// `kind` (concrete per harness): what the intersection routine answers -- 0 None, 1 Point, 2 Overlap
 pub fn possible_intersection_contract_body<F: AnyF, S: Src>(s: &mut S, kind: u8) {
     let (p1, q1, p2, q2) = (pt::<F, S>(s), pt::<F, S>(s), pt::<F, S>(s), pt::<F, S>(s));
+    possible_intersection_core::<F, S>(s, kind, p1, q1, p2, q2);
+}
+
+/// Overlap arm on a grid (bounded in coordinates, exhaustive in what the arm depends on): four collinear endpoints at
+/// symbolic positions 0..4 along one of four directions (horizontal, vertical, diagonal, anti-diagonal), every order type
+/// of the two left ends and of the two right ends with an overlap of positive length.
+pub fn possible_intersection_overlap_grid_body<F: AnyF, S: Src>(s: &mut S) {
+    let dir = s.u8() % 4;
+    let (dx, dy): (f64, f64) = match dir {
+        0 => (1.0, 0.0),
+        1 => (0.0, 1.0),
+        2 => (1.0, 1.0),
+        _ => (1.0, -1.0),
+    };
+    let mut t = [0u8; 4];
+    let mut i = 0;
+    while i < 4 {
+        t[i] = s.u8();
+        s.assume(t[i] < 4);
+        i += 1;
+    }
+    s.assume(t[0] < t[1] && t[2] < t[3]);
+    let lo = if t[0] > t[2] { t[0] } else { t[2] };
+    let hi = if t[1] < t[3] { t[1] } else { t[3] };
+    s.assume(lo < hi);
+    let at = |k: u8| Coord { x: F::from(1.0 + dx * k as f64).unwrap(), y: F::from(5.0 + dy * k as f64).unwrap() };
+    possible_intersection_core::<F, S>(s, 2, at(t[0]), at(t[1]), at(t[2]), at(t[3]));
+}
+
+fn possible_intersection_core<F: AnyF, S: Src>(s: &mut S, kind: u8, p1: Coord<F>, q1: Coord<F>, p2: Coord<F>, q2: Coord<F>) {
     let (s1, s2) = (s.bool(), s.bool());
     let ip = pt::<F, S>(s);
     let bump = Coord { x: ip.x.nextafter(true), y: ip.y };
@@ -345,6 +375,16 @@ mod proofs_pi {
             }
         };
     }
+    #[kani::proof]
+    #[kani::stub(robust::orient2d, orient2d_contract)]
+    #[kani::stub(std::collections::BinaryHeap::push, heap_push_recorder)]
+    #[kani::stub(super::super::super::segment_intersection::intersection, intersection_contract)]
+    #[kani::stub(super::super::super::divide_segment::divide_segment, divide_segment_by_contract)]
+    #[kani::unwind(8)]
+    fn possible_intersection_overlap_grid_f64() {
+        possible_intersection_overlap_grid_body::<f64, _>(&mut KaniSrc);
+    }
+
     pi_harness!(possible_intersection_none_f64, f64, 0);
     pi_harness!(possible_intersection_point_f64, f64, 1);
     pi_harness!(possible_intersection_overlap_f64, f64, 2);
